@@ -66,6 +66,8 @@ def history_check(run, n, steps, computer):
         else:
             op, c = "compute", None
         hist.append((op, c))
+        if op != "compute" and rng.random() < 0.5:
+            continue                      # several operations between two recomputes
         g.compute_bounds()
         lo, up = g.get_lower_bounds(), g.get_upper_bounds()
         for c2 in range(1 << n):
@@ -96,8 +98,18 @@ def main(run):
             for _ in range(2):
                 ops.append(("reset", 0, tuple(sorted(run.rng.sample(non_min, run.rng.randint(0, len(non_min)))))))
             for op, s, kp in ops:
-                run.prove(f"agree.{op}[n={n},s={s},k'={len(kp)}]", S.sc_agree_preserved,
-                          {"n": n, "op": op, "s": s, "kprime": list(kp)})
+                pp = {"n": n, "op": op, "s": s, "kprime": list(kp)}
+                run.prove(f"agree.{op}[n={n},s={s},k'={len(kp)}]", S.sc_agree_preserved, pp,
+                          fallback=(lambda n=n, pp=pp: run.bounded_run(f"fallback.agree[{pp['op']},n={n},s={pp['s']}]", S.sc_agree_preserved, pp,
+                                                                     bounded_inputs(run, n, 60), bound="60 seeded (game, K, stale) triples")))
+    # whole histories with several operations between two recomputes (memoised / skipped recomputation shows only here)
+    for comp in COMPUTERS:
+        for ops in ([["c"], ["r", 3], ["u", 3], ["c"]], [["r", 5], ["c"], ["r", 3], ["u", 5], ["u", 3], ["c"]],
+                    [["c"], ["r", 6], ["r", 3], ["c"], ["u", 6], ["r", 5], ["c"]], [["c"], ["x", [3, 5]], ["c"], ["u", 3], ["x", [6]], ["c"]]):
+            tag = "".join(o[0] + (str(o[1]) if len(o) > 1 and not isinstance(o[1], list) else "") for o in ops)
+            run.prove(f"history.{comp}[n=3,{tag}]", S.sc_bounds_history, {"n": 3, "computer": comp, "ops": ops})
+        ops4 = [["c"], ["r", 7], ["r", 12], ["u", 7], ["u", 12], ["c"], ["r", 3], ["c"], ["u", 3], ["r", 5], ["u", 5], ["c"]]
+        run.prove(f"history.{comp}[n=4,long]", S.sc_bounds_history, {"n": 4, "computer": comp, "ops": ops4})
     run.discharge()
     # bounded float/dyadic clause on the real package
     rng_ns = (2, 3, 4, 5, 6) if run.tier == "quick" else (2, 3, 4, 5, 6, 7, 8)
